@@ -20,7 +20,7 @@ answer: per processed frame `<X>@<dump>` joined by ';', then `#<frames>`:
 namespace Cpppo.Driver.Serve
 open Cpppo.Wire Cpppo.Logix Cpppo.Serve
 
-def commands : List String := ["c08", "eng", "scan"]
+def commands : List String := ["c08", "c08.eng", "c08.scan"]
 
 /-- the implementation's parsed request is handed over with its data re-encoded from the parsed values
 (BOOL bytes become 0/255, a signalling REAL NaN is quietened, a STRING pad byte becomes 0): compare values -/
@@ -175,11 +175,11 @@ def handle : List String → Option String
       else if mode == "p" then some (runChunks infos 0 d cs)
       else none
     pure ((if outs.isEmpty then "-" else ";".intercalate outs) ++ s!"#{outs.length}")
-  | ["scan", req] => do
+  | ["c08.scan", req] => do
     -- symbols consumed by the Multiple Service Packet parsers at all nesting levels (`scanCost`)
     let bs ← bytesOfHex req
     pure s!"{scanCost bs.length bs}"
-  | ["eng", kinds, terminal, edges, input] => do
+  | ["c08.eng", kinds, terminal, edges, input] => do
     let edges ← (splitNonEmpty edges ',').mapM parseEdge
     let inp ← bytesOfHex input
     let t : Table := { kinds := kinds.toList.map (· == 'c'), terminal := terminal.toList.map (· == '1'), edges := edges }
